@@ -85,6 +85,17 @@ def common(kind, spec, build, encoding=False, want_bulk=True):
             w = build(root)
         except AssertionError:
             raise Refused(f"{kind}: constructor assertion")
+        if g == 1 and spec.get("clone"):
+            # the second build travels through deepcopy / pickle (spawn-started workers, checkpointed pipelines) before it is used:
+            # the mapping is a function of the constructor arguments and the seed, so the copy must agree with the first build
+            import copy
+            import pickle
+            try:
+                w = copy.deepcopy(w) if spec["clone"] == "deepcopy" else pickle.loads(pickle.dumps(w))
+            except (pickle.PicklingError, AttributeError, TypeError) as e:
+                if spec["clone"] == "deepcopy":
+                    raise Violation(f"wrapper-cannot-be-deep-copied:{kind}", repr(e)[:200])
+            root = w.root_dataset
         n = len(root)
         if len(w) != n:
             raise Violation(f"len-changed:{kind}", f"{len(w)} vs {n}")
@@ -134,8 +145,10 @@ def check_class_groups(spec):
     C = spec["C"]
     divs = [d for d in range(1, C + 1) if C % d == 0]
     g = divs[spec["gsel"] % len(divs)]
-    w, lab, root = common("ClassGroupsWrapper", spec, lambda r: ClassGroupsWrapper(r, classes_per_group=g, shuffle=spec["shuffle"],
-                                                                                  seed=spec["seed"]))
+    w, lab, root = common("ClassGroupsWrapper", spec, lambda r: (
+        # documented order: dataset, classes_per_group, shuffle, seed
+        ClassGroupsWrapper(r, g, spec["shuffle"], spec["seed"]) if spec.get("call") == "positional" else
+        ClassGroupsWrapper(r, classes_per_group=g, shuffle=spec["shuffle"], seed=spec["seed"])))
     # samples of one original class stay inside one group of g consecutive labels
     grp = {}
     for c, l in zip(spec["classes"], lab):
@@ -149,8 +162,10 @@ def check_random_superclass(spec):
     C = spec["C"]
     cps = 1 + spec["cps"] % C
     splits = spec["splits"]
-    w, lab, root = common("RandomSuperclassWrapper", spec, lambda r: RandomSuperclassWrapper(
-        r, classes_per_superclass=cps, superclass_splits=splits, shuffle=spec["shuffle"], seed=spec["seed"]))
+    w, lab, root = common("RandomSuperclassWrapper", spec, lambda r: (
+        # documented order: dataset, classes_per_superclass, superclass_splits, shuffle, seed
+        RandomSuperclassWrapper(r, cps, splits, spec["shuffle"], spec["seed"]) if spec.get("call") == "positional" else
+        RandomSuperclassWrapper(r, classes_per_superclass=cps, superclass_splits=splits, shuffle=spec["shuffle"], seed=spec["seed"])))
     nsup = math.ceil(C / cps)
     sup = {}
     for c, l in zip(spec["classes"], lab):
@@ -170,7 +185,8 @@ def check_random_superclass(spec):
 def check_swap_label(spec):
     from kappadata.wrappers.dataset_wrappers.swap_label_wrapper import SwapLabelWrapper
     p = spec["p"]
-    w, lab, root = common("SwapLabelWrapper", spec, lambda r: SwapLabelWrapper(r, p=p, seed=spec["seed"]))
+    w, lab, root = common("SwapLabelWrapper", spec, lambda r: (
+        SwapLabelWrapper(r, p, spec["seed"]) if spec.get("call") == "positional" else SwapLabelWrapper(r, p=p, seed=spec["seed"])))
     app = [w.getitem_apply(i) for i in range(len(lab))]
     for i, (a, l) in enumerate(zip(app, lab)):
         if not a and l != spec["classes"][i]:
@@ -404,7 +420,9 @@ def check_stacked(spec):
 def L(extra, unlabeled=False, internal=False, **kw):
     base = with_layout(extra, min_n=1, allow_unlabeled=unlabeled, **kw)
     kinds = ["list", "internal", "numpy", "tensor", "internal_numpy", "internal_tensor"]
-    return base.flatmap(lambda s: st.sampled_from(kinds).map(lambda b: dict(s, bulk=b)))
+    return base.flatmap(lambda s: st.tuples(st.sampled_from(kinds), st.sampled_from([None, None, "deepcopy", "pickle"]),
+                                            st.sampled_from(["keyword", "positional"])).map(
+        lambda t: dict(s, bulk=t[0], clone=t[1], call=t[2])))
 
 
 SEED = st.one_of(st.just(0), st.integers(0, 2 ** 31 - 1))  # 0 is a legal seed and a classic falsy-value trap
